@@ -15,6 +15,7 @@
 #include <chrono>
 #include <mutex>
 #include <optional>
+#include <iterator>
 #include <csignal>
 #include <unistd.h>
 
@@ -288,7 +289,7 @@ static void run_case(std::istream &in, std::size_t maxlen, std::size_t minlen) {
         std::ostringstream head;
         const std::string &op = w[0];
         int a1 = w.size() > 1 ? atoi(w[1].c_str()) : -1;
-        if (op == "pub" || op == "pubn" || op == "close" || op == "destroy" || op == "kick" || op == "kickme" || op == "end")
+        if (op == "pub" || op == "pubn" || op == "pubi" || op == "close" || op == "destroy" || op == "kick" || op == "kickme" || op == "end")
             c.begin_pass();
         else
             c.in_pass.clear();
@@ -332,7 +333,8 @@ static void run_case(std::istream &in, std::size_t maxlen, std::size_t minlen) {
         } else if (op == "copy") {
             int src = w.size() > 2 ? atoi(w[2].c_str()) : -1;
             sub_ent *s = c.get(src);
-            sub_ent *e = (s && s->phase == IDLE) ? c.fresh(a1) : nullptr;
+            // the source may be anywhere inside next() (waiting, woken, ended): the copy constructor only reads it
+            sub_ent *e = s ? c.fresh(a1) : nullptr;
             if (!e) {
                 head << "bad";
             } else {
@@ -467,6 +469,15 @@ static void run_case(std::istream &in, std::size_t maxlen, std::size_t minlen) {
             if (c.pub) c.pub->publish(vals.begin(), vals.end()); else c.q->push(vals.begin(), vals.end());
             c.npub += vals.size();
             head << "pubn q=" << q_len(*c.q);
+        } else if (op == "pubi") {
+            // the batch publish fed from a single-pass input iterator (std::istream_iterator): the range can be walked once
+            std::string text;
+            for (std::size_t i = 1; i < w.size(); ++i) text += w[i] + " ";
+            std::istringstream is(text);
+            std::istream_iterator<int> from(is), to;
+            if (c.pub) c.pub->publish(from, to); else c.q->push(from, to);
+            c.npub += w.size() - 1;
+            head << "pubi q=" << q_len(*c.q);
         } else if (op == "close") {
             if (c.pub) c.pub->close(); else c.q->close();
             head << "close q=" << q_len(*c.q);
@@ -539,8 +550,18 @@ static void run_threads(std::istream &in, std::size_t maxlen, std::size_t minlen
             at_start.fetch_add(1);
             while (!go.load()) std::this_thread::yield();
             auto note = [&] { recs[i].got.emplace_back(s.position(), s_has_val(s) ? s.value() : -1); };
-            // consumer style by thread index: bool(next()) / !next() / range-for / explicit iterator with postfix ++
-            switch (i % 4) {
+            // consumer style by thread index: bool(next()) / !next() / range-for / explicit iterator with postfix ++ / polling next_ready()
+            switch (i % 5) {
+                case 4:
+                    // polling consumer: next_ready() until the stream has ended (after close the final blocking next() ends it)
+                    for (;;) {
+                        if (s.next_ready()) { note(); continue; }
+                        if (closed.load()) {
+                            if (!s.next()) break;
+                            note();
+                        } else std::this_thread::yield();
+                    }
+                    break;
                 case 0:
                     while (s.next()) note();
                     break;
@@ -606,6 +627,14 @@ static void run_threads(std::istream &in, std::size_t maxlen, std::size_t minlen
         if (r.mode == 'a' && (int)r.got.size() != nvalues) {
             // early end of stream: only legal by lag (nobody kicks here); it needs a bounded queue
             if (maxlen == 0) bad.push_back(id + ":early-eof");
+        }
+    }
+    if (getenv("C16_THR_STATS")) {
+        for (std::size_t i = 0; i < recs.size(); ++i) {
+            int rep = 0;
+            for (std::size_t k = 1; k < recs[i].got.size(); ++k) rep += recs[i].got[k].second == recs[i].got[k - 1].second;
+            fprintf(stderr, "thrstat consumer %zu mode %c style %zu values %zu same-value-twice %d\n", i, recs[i].mode, i % 5,
+                    recs[i].got.size(), rep);
         }
     }
     std::sort(bad.begin(), bad.end());
